@@ -2184,6 +2184,7 @@ impl Kanata {
         let pressed_keys_means_not_idle =
             !self.waiting_for_idle.is_empty() || self.live_reload_requested;
         self.layout.b().queue.is_empty()
+            && self.layout.b().oneshot.pause_input_processing_ticks == 0
             && zippy_is_idle()
             && self.layout.b().waiting.is_none()
             && self.layout.b().last_press_tracker.tap_hold_timeout == 0
